@@ -34,6 +34,10 @@ TRAIN_FILES = ("vaporetto/src/trainer.rs", "vaporetto/src/tag_trainer.rs")
 
 def run(chk):
     w = C.world_for(chk)
+    # rejecting an input means returning an error value: building it must not be able to fail (shared with C05)
+    from . import c05_total as _c05t
+    chk.rule("R05.4", "error constructors are straight-line conversions (shared with C05)")
+    _c05t.error_ctors(chk, w)
     from . import c01_absent as _abs
     _abs.run(chk, w)
     c06.r068(chk, w)
